@@ -67,6 +67,21 @@ Theorem shared_stack_interference_refuted :
   exists sched, seen (agents (SharedStack.run 100 (shared_sys 11 22 33 44) sched) 0) <> story (shared_sys 11 22 33 44) 0.
 Proof. exact shared_stack_refuted_lem. Qed.
 
+(* the index operator `list[i]` evaluates an unevaluated lazy list in an evaluation context of its own (a fresh stack
+   per access, value.go AccessList): whichever goroutines do it - workers of a parallel stage indexing per-item lists,
+   or an access nested in the evaluation caused by another access - and however they interleave, every closure called
+   by such an evaluation sees exactly the arguments pushed for it *)
+Theorem index_access_private : forall (limit : nat) (progs : nat -> list (op (V := nat))) (sched : list nat),
+  (forall i, wf_prog 0 (progs i) /\ npush (progs i) <= S limit) ->
+  forall i, story (SharedStack.run limit (index_access_sys true progs) sched) i = story (index_access_sys true progs) i
+            /\ panicked (agents (SharedStack.run limit (index_access_sys true progs) sched) i) = false.
+Proof. exact index_access_private_lem. Qed.
+
+(* ... whereas on ONE generator-wide stack even a strictly sequential re-entrant access overwrites the pending arguments *)
+Theorem index_access_shared_refuted :
+  exists progs sched, seen (agents (SharedStack.run 100 (index_access_sys false progs) sched) 0) <> story (index_access_sys false progs) 0.
+Proof. exact index_access_shared_refuted_lem. Qed.
+
 (* ownership map of the repaired code: for EVERY pipeline and every choice of map/accept stages that switch to
    parallel execution, no stack storage is pushed on by two different goroutines *)
 Theorem stacks_private_fixed : forall (l : list okind) (g pos : nat), stacks_private (own true g pos l).
@@ -220,6 +235,8 @@ Print Assumptions iteration_is_repeatable.
 Print Assumptions private_stacks_noninterference.
 Print Assumptions private_stacks_finished.
 Print Assumptions shared_stack_interference_refuted.
+Print Assumptions index_access_private.
+Print Assumptions index_access_shared_refuted.
 Print Assumptions stacks_private_fixed.
 Print Assumptions stacks_private_before_repair_refuted.
 Print Assumptions map_auto_eq_seq.
